@@ -308,4 +308,46 @@ theorem run_refines : ∀ (ops : List Op) (s : St),
     rw [h1.2] at h2
     simp [run, srun, h1.1, h2.1, h2.2]
 
+/-! ### descriptors -/
+
+theorem sim_setFile (full : Bool) (d : Bytes) (m : Meta) : Sim (actSetFile full d m) (sSetFile d m) :=
+  ⟨fun l a h => by cases l <;> simp [actSetFile] at h ⊢ <;> simp [sSetFile, L.view],
+   fun l e h => by cases l <;> simp [actSetFile] at h ⊢ <;> simp [sSetFile, L.view, ← h]⟩
+
+theorem sim_open : Sim actOpen (fun t => match t with
+    | .file d m => .ok ((d, m), .file d m)
+    | .dir .. => .error .isdir) :=
+  ⟨fun l a h => by cases l <;> simp [actOpen] at h ⊢ <;> simp [L.view, ← h],
+   fun l e h => by cases l <;> simp [actOpen] at h ⊢ <;> simp [L.view, ← h]⟩
+
+/-- an action that hands its whole new view upwards: after `atPath`, what reaches the root describes the
+target's place exactly as the file system shows it -/
+theorem atPath_up {α : Type} {act : L → R α}
+    (hact : ∀ l a, (act l).res = .ok a → (act l).up = some (act l).l.view) :
+    ∀ (p : List Name) (l : L) (a : α), (atPath p act l).res = .ok a →
+      ∃ nd, (atPath p act l).up = some nd ∧ N.get p nd = N.get p (atPath p act l).l.view := by
+  intro p
+  induction p with
+  | nil => intro l a h; exact ⟨_, hact l a h, by simp [atPath]⟩
+  | cons k ks ih =>
+    intro l a h
+    cases l with
+    | file d m => simp [atPath] at h
+    | dir m e =>
+      cases hc : e.child k with
+      | none => simp [atPath, hc] at h
+      | some c =>
+        simp only [atPath, hc] at h ⊢
+        obtain ⟨nd, hup, hget⟩ := ih c a h
+        refine ⟨.dir m (Ents.put k (atPath ks act c).l (some nd) e).links, by simp [hup], ?_⟩
+        simp only [hup, L.view, N.get, Ents.put_links_find hc, Ents.put_view hc, NL.find_set_self]
+        exact hget
+
+/-- on the plain tree: setting bytes and metadata is a plain write when the metadata did not change -/
+theorem setFile_eq_write {p : List Name} {t : N} {d d0 : Bytes} {m : Meta}
+    (h : N.get p t = .ok (.file d0 m)) :
+    N.atPath p (sSetFile d m) t = N.atPath p (sWrite fun _ => d) t := by
+  rw [N.atPath_eq, N.atPath_eq, h]
+  simp [sSetFile, sWrite]
+
 end C19
